@@ -1,7 +1,7 @@
 #include "queues_common.hpp"
 #include <xenium/nikolaev_queue.hpp>
 using namespace qh;
-namespace {
+namespace hx_queues_nik {
 template <class R, unsigned E, unsigned PR>
 using NQ = xenium::nikolaev_queue<int, xenium::policy::reclaimer<R>, xenium::policy::entries_per_node<E>, xenium::policy::pop_retries<PR>>;
 const Config cfgs[] = {
